@@ -12,6 +12,7 @@ R4 sealed       : the trait has a supertrait that is not reachable from outside 
 """
 from . import core, flow
 from .framework import where, short
+from .c02 import sub as _sub
 
 CRATE = "passkey_authenticator"
 AUTH = "passkey_authenticator::authenticator::Authenticator"
@@ -92,6 +93,18 @@ def run(chk):
             ret = og.of_place(co, 0)
             rs = flow.atoms_summary(ret)
             okret = all(x[0] == "call" and x[2] == inherent.path for x in ret) and len(ret) >= 1
+            if not okret:
+                # the result taken apart and re-wrapped unchanged (`Ok(x.await?)`, match arms that rebuild the same variant)
+                from . import normal, summary
+                Nn = normal.Normalizer(p, summary.Summaries(p))
+                Tt = flow.Terms(p, co)
+                ico = p.async_body(inherent)
+                same_ty = ico is not None and ico.j["locals"][0]["ty"] == co.j["locals"][0]["ty"]
+                rts = [Nn.norm(Tt.place(0, (), rb, "t")) for rb in co.return_blocks()]
+                fw = [x for rt in rts for x in _sub(rt) if isinstance(x, tuple) and len(x) == 4 and x[0] == "await" and x[1] == inherent.path]
+                okret = bool(rts) and bool(fw) and all(normal.rebuilds(rt, fw[0], residual_ok=same_ty) for rt in rts)
+                if okret:
+                    rs = "the awaited result of %s, re-wrapped variant by variant (same result type: %s)" % (short(inherent.path), same_ty)
             chk.ob("R3 transparent", "R3|Ctap2Api::%s|result" % m, okret, where(co), "return value origins: %s" % rs)
 
     # R2: no API-trait impl method reaches itself
